@@ -34,6 +34,8 @@ def run(check: Check, repo: Repo, tier: str) -> None:
     W.check_writes(check, repo, "NO-MUTATION", funcs, prot)
     check.floor("NO-MUTATION", 40, "write sites in the schema transformation modules")
     D.extend_build_agree(check, repo)
+    D.oneof_definition_only(check, repo)
+    D.root_overwrite(check, repo)
     D.cross_schema_identity(check, repo)
     G.zip_filter(check, [repo.mod(mn) for mn in MODS] + [repo.mod("utilities.find_schema_changes")])
     G.arg_name_match(check, repo, funcs)
